@@ -96,6 +96,9 @@ def check_struct(ctx, ty, spec, rules=("R-1", "R-2", "R-3", "R-4")):
         elif kind == "bstr/int<i64>/nil":
             ks = ["type-error:slot%d" % idx]
             expected["propagate:" + codec.TRY_INTO] = expected.get("propagate:" + codec.TRY_INTO, 0) + 1
+            if "propagate:" + codec.TRY_INTEGER in cen:
+                # the Integer arm narrowing through `v.try_as_integer()?.try_into()?`: the first `?` cannot fail on that arm
+                expected["propagate:" + codec.TRY_INTEGER] = expected.get("propagate:" + codec.TRY_INTEGER, 0) + 1
         elif kind.startswith("nested<"):
             ks = None
         else:
